@@ -47,6 +47,7 @@ def run_seed_of(base, prop, idx):
 def run_chunk(prop, tier, base, indices, keep_digests):
     from .world import signature, plan_digest
     world = load_world(prop)
+    faulthandler.enable()       # a crash of the interpreter itself (e.g. inside a C decoder) leaves a traceback in the log
     import gc
     gc.collect()
     gc.freeze()     # everything imported so far is permanent: makes the per-run gc.collect() cheap
@@ -55,6 +56,11 @@ def run_chunk(prop, tier, base, indices, keep_digests):
            "steps": 0, "sim_s": 0.0, "switches": 0, "preempts": 0, "samples": [], "violating_runs": 0}
     for idx in indices:
         faulthandler.dump_traceback_later(400, exit=True)
+        try:
+            with open("/tmp/.pyro5dst-current-%d" % os.getpid(), "w") as fcur:
+                fcur.write("%s %s %d %d\n" % (prop, tier, base, idx))
+        except OSError:
+            pass
         seed = run_seed_of(base, prop, idx)
         plan = world.make_plan(seed, tier)
         try:
